@@ -212,6 +212,10 @@ def rule_D6_ownership(tree: Tree) -> RuleResult:
                     d = dotted(n.func.value) or ""
                     if d.endswith("keylog"):
                         bad.append(f"{f.qualname}: mutates the shared key list ({src(n, 60)})")
+                    # the server-port list and the port map are handed to every session by reference: a session that changes them changes the roles /
+                    # ports of all later connections
+                    if d.split(".")[-1] in ("server_ports", "portmap", "port_map") and (d in f.params or d.startswith("self.")):
+                        bad.append(f"{f.qualname}: mutates the shared {d.split('.')[-1]} object ({src(n, 60)})")
                     # mutation of a module-level object of any repo module
                     head = d.split(".")[0]
                     if head and head in c.module.assigns and _is_mutable_literal(c.module.assigns[head]) and head not in f.params:
@@ -330,6 +334,8 @@ def rule_D6_nondet(tree: Tree) -> RuleResult:
     cg = CallGraph.of(tree)
     run = tree.func("main", "run")
     reach = cg.reachable([run])
+    # option handling runs inside parse_args() (argparse actions, helpers called from them): part of every run although not a resolved callee of run()
+    reach = set(reach) | set(tree.module("main").functions.values())
     r.floor = 0
     for f in sorted(reach, key=lambda x: x.key):
         if f.module.short in ("log",):
@@ -396,6 +402,10 @@ def rule_D6_nondet(tree: Tree) -> RuleResult:
                         if isinstance(y, ast.Call) and isinstance(y.func, ast.Attribute) and y.func.attr in ("append", "extend", "write"):
                             order_sensitive = True
                             why = "ordered accumulation in hash order"
+                        # item assignment keyed by something computed from the element: when two elements yield the same key the last one in hash order wins
+                        if isinstance(y, ast.Assign) and any(isinstance(t, ast.Subscript) and not isinstance(t.slice, ast.Slice) for t in y.targets):
+                            order_sensitive = True
+                            why = "keyed overwrite (the last element in hash order wins for equal keys)"
             r.sample({"function": f.qualname, "iterates": src(it, 60), "order_sensitive": order_sensitive})
             r.ob(not order_sensitive, Finding("D6b", f"{f.key}:set-iteration-order",
                                               f"{f.qualname} iterates the set `{src(it, 60)}` with {why}: for bytes elements the order follows the per-process "
